@@ -135,6 +135,10 @@ Section Weather.
 
   Definition mrec := (Z * Z * wrec)%type.
 
+  Definition prev_year_ok (st : store) (yrz y : Z) : bool :=
+    let s := slot_at st (Z.to_nat (yrz - 1)) in
+    (s_jar s =? y - 1) && (s_maxd s =? ylen (y - 1)).
+
   Fixpoint rm_loop (startyear : Z) (recs : list mrec) (Tv yrz : Z) (first : bool) (st : store)
     : option (store * Z) :=
     match recs with
@@ -143,9 +147,10 @@ Section Weather.
         let Tv := Tv + 1 in                                        (* T++ *)
         if y <? startyear then rm_loop startyear rest Tv yrz first st   (* continue *)
         else
-          (* a 1 January closes the year before it, which has to be complete: its last record is
-             the 31st of December (MaxYearDays = YearDay(31 Dec of year-1)), else "missing days" (F32) *)
-          if negb first && (yd =? 1) && negb (maxd_at st (Z.to_nat (yrz - 1)) =? ylen (y - 1)) then None else
+          (* a 1 January closes the slot before it, which has to hold the year before this one (F33)
+             up to its 31st of December (F32): JAR = year-1 and MaxYearDays = YearDay(31 Dec of year-1),
+             else "missing days" *)
+          if negb first && (yd =? 1) && negb (prev_year_ok st yrz y) then None else
           let '(Tv, yrz) := if first then (yd, 1)
                             else if yd =? 1 then (1, yrz + 1) else (Tv, yrz) in
           if negb (yd =? Tv) then None                             (* "missing days" *)
